@@ -9,6 +9,21 @@ claimed = {
          "Every storage call of every mutating operation (record, annotate, propagation entry, State.Commit, Apply, Attestations.Commit, ReconcileStaging) is failed and crashed in turn from seeded starting states (empty, first-ever, established, staging ahead, policy ahead, diverged, attestations present); log validity is judged by an independent walker, managed-ref consistency and retry-equivalence by comparing with the uninterrupted run, crash verdicts by a cache-less observer on a fork. Complete within each sampled (state, operation); which states are sampled is seeded search.",
          "SimStore stands in for Git storage (Commit split into read/object/compare-and-set as in gitinterface/commit.go); single-fault model; power-loss of un-fsynced objects is not modelled.",
          "DESIGN.md §6 C16"),
+ "C17": ("exploration",
+         "deterministic simulation: seeded scheduler over goroutines parked at every reference operation; independent walker + porcupine linearizability check",
+         "2-3 concurrent recording operations (record, annotate, policy stage, policy apply) plus tip readers run against one repository under seeded interleavings (uniform, PCT-style, single pre-emption) of their reference operations; each operation must fail without trace or succeed with exactly one entry, the final log must be a consecutive single-parent chain every reader walks, and the append/read history must be linearizable against a sequential log (porcupine). Sampled schedules, counted as distinct canonical reference-operation orders.",
+         "SimStore's Commit mirrors gitinterface's read-tip/commit-tree/compare-and-set; OS-process races are modelled by goroutines with separate RSL caches, one runnable at a time.",
+         "DESIGN.md §6 C17"),
+ "C03": ("exploration",
+         "deterministic simulation: seeded operation sequences with injected storage errors, restarts and repeats; independent chain walker after every step",
+         "Seeded sequences of every recording operation (incl. legacy unnumbered entries and the transition to numbering, invalid annotation targets, invalidly signed staged policy) with single-call io-errors inside a subset of operations; after every operation an independent walker checks single parent, number = parent+1, earlier tips still ancestors, exactly the reported entries on success, none on failure.",
+         "SimStore; one recorder at a time (concurrency is C17).",
+         "DESIGN.md §6 C03"),
+ "C04": ("exploration",
+         "deterministic simulation: growing and tampered logs queried by a restarting reader process; oracle = newest-to-oldest scan over the model slice",
+         "Harness-written logs (all entry kinds, multi-target annotations, gittuf namespaces, legacy prefix) are queried through every exported reader with seeded option combinations and bounds while the log grows (warm cache from shorter logs) and after one single-point corruption (extra parent, number gap/duplicate, garbage commit); results must equal a plain scan, and any answer whose scan crosses the corruption must be an error.",
+         "Option semantics as documented in pkg/rsl/options.go; documented-open combinations are counted as unspecified, not compared.",
+         "DESIGN.md §6 C04"),
 }
 
 not_applicable = {
